@@ -78,8 +78,19 @@ class Variable(FortranObj):
             return
         if self.parent is not None:
             link_obj = find_in_scope(self.parent, self.link_name, obj_tree)
-            if link_obj is not None:
+            if link_obj is not None and not self.is_linked_from(link_obj):
                 self.link_obj = link_obj
+
+    def is_linked_from(self, obj) -> bool:
+        """Check if following the links of ``obj`` leads back to this variable,
+        linking to such an object would create a circular reference"""
+        seen = []
+        while obj is not None and all(obj is not prev for prev in seen):
+            if obj is self:
+                return True
+            seen.append(obj)
+            obj = getattr(obj, "link_obj", None)
+        return False
 
     def require_link(self):
         return self.link_name is not None
